@@ -875,6 +875,9 @@ class Lib:
             return VU(tf.to_u(st, v))
         return v
 
+    def sp_OBJECT_T(self, st, node):
+        return VU(self.eng.strconst("<class object>"))
+
     def sp_None_U(self, st, node):
         return VU(NONE_U)
 
